@@ -13,6 +13,7 @@ import PsutilModel.Proofs.C06Ctx
 import PsutilModel.Proofs.C06Witness
 import PsutilModel.Proofs.C06Ext
 import PsutilModel.Proofs.C06Name
+import PsutilModel.Proofs.C06Hist
 import Mathlib.Tactic.NormNum
 import PsutilModel.Model.C06Gen
 deriving instance DecidableEq for Except
@@ -850,6 +851,172 @@ example : (⟨[[99, 112, 117, 32, 49]], 1700000000, [[112, 114, 111, 99, 101, 11
 example : AllDevices [(pathPts0, NodeKind.vanished), (pathTtyX, NodeKind.chr 1025), (pathPts0, NodeKind.chr 1025)] := by
   intro e he r; simp at he; rcases he with h | h | h <;> subst h <;> simp
 
+
+/-! ## histories on ONE `Process` object: `oneshot()` blocks left normally or by an exception (seeded round 5)
+
+  The theorems above are about one parse of one file. Between the public getters and the parsers sits the
+  caching machinery of `Process.oneshot()` / `memoize_when_activated` (Model/C06Hist.lean). The property speaks
+  about every call: "report exactly what the kernel publishes" — so over a history in which the kernel keeps
+  publishing new records, a getter called OUTSIDE every block must report the record published at that
+  moment, whatever happened on the object before; in particular after a block was left by an EXCEPTION. -/
+
+/-- the facts about `Process.oneshot()` (what it calls on entry, on a normal exit, on an exit by exception),
+    about `_pslinux.Process.oneshot_enter/_exit` and about the decorated functions have the values the history
+    theorem needs: entering while a block is open does nothing, entering activates both `_cache` slots, and
+    leaving — normally AND when an exception propagates out of the block — ends with both slots deactivated -/
+theorem hcfg_good : hcfg.Good := by
+  constructor <;> decide
+
+set_option maxRecDepth 20000 in
+/-- the `_cache` slot itself, pinned by source text: `cache_activate` puts a FRESH dict into the slot,
+    `cache_deactivate` deletes the slot, the wrapper runs the function undecorated when there is no slot (or the slot
+    belongs to another thread) and otherwise looks the value up / stores it on a miss; `oneshot()` is a
+    `contextlib.contextmanager` whose nested-entry branch is `if hasattr(self, '_cache'): yield` -/
+theorem cfg_oneshot_anchors :
+    Gen.C06.memoActivateSrc = ["proc._cache = (threading.get_ident(), {})"]
+    ∧ Gen.C06.memoDeactivateSrc = ["try:\n    del proc._cache\nexcept AttributeError:\n    pass"]
+    ∧ Gen.C06.memoWrapperSrc =
+        ["try:\n    owner, cache = self._cache\nexcept AttributeError:\n    try:\n        return fun(self)\n    except Exception as err:\n        raise err from None",
+         "if owner != threading.get_ident():\n    try:\n        return fun(self)\n    except Exception as err:\n        raise err from None",
+         "try:\n    ret = cache[fun]\nexcept KeyError:\n    try:\n        ret = fun(self)\n    except Exception as err:\n        raise err from None\n    cache[fun] = ret",
+         "return ret"]
+    ∧ Gen.C06.oneshotIsContextManager = true
+    ∧ Gen.C06.oneshotNestedTest = "hasattr(self, '_cache')"
+    ∧ Gen.C06.oneshotNestedBody = ["yield"] := by decide
+
+/-- a promised value as a model value -/
+def outOf : OutV → Out
+  | .bytes b => .bytes b
+  | .int i => .int i
+  | .str s => .st (.str s)
+  | .cpu c => .cpu ⟨c.user, c.system, c.childrenUser, c.childrenSystem, c.iowait⟩
+  | .obytes o => .obytes o
+  | .ids t => .ids t
+  | .nat n => .nat n
+  | .pair p => .pair p
+
+/-- the kernel files of a record -/
+def renderWorld (r : ProcRec) : World := ⟨renderStat r.stat, renderStatus r.status⟩
+
+/-- every getter, run with no cache anywhere on the files the kernel renders for a record, returns the
+    promised value (the per-method theorems above, collected over the `Getter` vocabulary) -/
+theorem C06_direct_exact (tck : Nat) (htck : 0 < tck) (tmap : List (Int × Bytes)) (g : Getter) (r : ProcRec)
+    (hwf : r.WF) :
+    direct ⟨cfg, tck, tmap⟩ g (renderWorld r) = .ok (outOf (viewV ⟨tck, tmap⟩ g r)) := by
+  obtain ⟨hs, hst, hctx⟩ := hwf
+  cases g with
+  | name =>
+    have : direct ⟨cfg, tck, tmap⟩ .name (renderWorld r) = (name cfg (renderStat r.stat)).map .bytes := by
+      simp only [direct, Getter.usesStat, if_true, name, renderWorld]
+      cases parseStat cfg (renderStat r.stat) <;> rfl
+    rw [this, C06_name_exact r.stat hs]; rfl
+  | ppid =>
+    have : direct ⟨cfg, tck, tmap⟩ .ppid (renderWorld r) = (ppid cfg (renderStat r.stat)).map .int := by
+      simp only [direct, Getter.usesStat, if_true, ppid, renderWorld]
+      cases parseStat cfg (renderStat r.stat) <;> rfl
+    rw [this, C06_ppid_exact r.stat hs]; rfl
+  | status =>
+    have : direct ⟨cfg, tck, tmap⟩ .status (renderWorld r) = (status cfg (renderStat r.stat)).map .st := by
+      simp only [direct, Getter.usesStat, if_true, status, renderWorld]
+      cases parseStat cfg (renderStat r.stat) <;> rfl
+    rw [this, C06_status_exact r.stat hs]; rfl
+  | cpuTimes =>
+    have : direct ⟨cfg, tck, tmap⟩ .cpuTimes (renderWorld r) = (cpuTimes cfg tck (renderStat r.stat)).map .cpu := by
+      simp only [direct, Getter.usesStat, if_true, cpuTimes, renderWorld]
+      cases parseStat cfg (renderStat r.stat) <;> rfl
+    rw [this, C06_cpu_times_exact tck htck r.stat hs]; rfl
+  | cpuNum =>
+    have : direct ⟨cfg, tck, tmap⟩ .cpuNum (renderWorld r) = (cpuNum cfg (renderStat r.stat)).map .int := by
+      simp only [direct, Getter.usesStat, if_true, cpuNum, renderWorld]
+      cases parseStat cfg (renderStat r.stat) <;> rfl
+    rw [this, C06_cpu_num_exact r.stat hs]; rfl
+  | terminal =>
+    have : direct ⟨cfg, tck, tmap⟩ .terminal (renderWorld r) = (terminal cfg tmap (renderStat r.stat)).map .obytes := by
+      simp only [direct, Getter.usesStat, if_true, terminal, renderWorld]
+      cases parseStat cfg (renderStat r.stat) with
+      | error x => rfl
+      | ok v =>
+        simp only [evalStat, bind, Except.bind]
+        cases pyInt v.ttynr <;> rfl
+    rw [this, C06_terminal_exact tmap r.stat hs]; rfl
+  | uids =>
+    have : direct ⟨cfg, tck, tmap⟩ .uids (renderWorld r) = (uids cfg (renderStatus r.status)).map .ids := rfl
+    rw [this, C06_status_extract.1 r.status hst]; rfl
+  | gids =>
+    have : direct ⟨cfg, tck, tmap⟩ .gids (renderWorld r) = (gids cfg (renderStatus r.status)).map .ids := rfl
+    rw [this, C06_status_extract.2.1 r.status hst]; rfl
+  | numThreads =>
+    have : direct ⟨cfg, tck, tmap⟩ .numThreads (renderWorld r) = (numThreads cfg (renderStatus r.status)).map .nat := rfl
+    rw [this, C06_status_extract.2.2 r.status hst]; rfl
+  | numCtxSwitches =>
+    have : direct ⟨cfg, tck, tmap⟩ .numCtxSwitches (renderWorld r)
+        = (numCtxSwitches cfg (renderStatus r.status)).map .pair := rfl
+    rw [this, C06_ctx_switches_extract r.status hctx]; rfl
+
+/-- "`o` is the exact report of getter `g` for the record `r`" -/
+def ExactReport (tck : Nat) (tmap : List (Int × Bytes)) (g : Getter) (r : ProcRec) (o : Res Out) : Prop :=
+  o = .ok (outOf (viewV ⟨tck, tmap⟩ g r))
+
+/-- FULL statement over histories, for a configuration `h` of the caching code: for every tick rate, tty map,
+    every first record and EVERY history (records published in between, getters, blocks entered, nested, left
+    normally or by an exception), every observation is allowed by Spec/C06Hist.lean: outside every block the
+    exact report for the record published at that moment; inside a block the exact report for a record
+    published while the block was open -/
+def HistoryExact_Full (h : HCfg) : Prop :=
+  ∀ (tck : Nat), 0 < tck → ∀ (tmap : List (Int × Bytes)) (r0 : ProcRec) (evs : List (Ev ProcRec)),
+    r0.WF → (∀ r ∈ published evs, r.WF) →
+    Conforms (ExactReport tck tmap) ⟨r0, none⟩ evs
+      (run h ⟨cfg, tck, tmap⟩ (HState.fresh (renderWorld r0)) (evs.map (Ev.map renderWorld)))
+
+theorem history_exact_of_good (h : HCfg) (hg : h.Good) : HistoryExact_Full h := by
+  intro tck htck tmap r0 evs hr0 hpub
+  have hrun := run_conforms h hg ⟨cfg, tck, tmap⟩ (evs.map (Ev.map renderWorld))
+    (HState.fresh (renderWorld r0)) ⟨renderWorld r0, none⟩ ⟨rfl, rfl, rfl, rfl⟩
+  refine Conforms.map renderWorld ProcRec.WF (directView ⟨cfg, tck, tmap⟩) (ExactReport tck tmap) ?_ evs
+    ⟨r0, none⟩ _ hr0 ?_ hpub hrun
+  · intro g w o hw hv
+    unfold directView at hv
+    rw [hv]
+    exact C06_direct_exact tck htck tmap g w hw
+  · intro w hw
+    simp only [candidates, List.mem_singleton] at hw
+    rw [hw]; exact hr0
+
+/-- THE CODE AS IT IS: every getter call of every history on one `Process` object is exact — in particular
+    a getter called after a `oneshot()` block was left by an exception reports what the kernel publishes NOW -/
+theorem C06_history_exact : HistoryExact_Full hcfg := history_exact_of_good hcfg hcfg_good
+
+/-- the caching code with ONE difference: when an exception propagates out of the block the platform teardown
+    `self._proc.oneshot_exit()` is not reached (it sits after the try/finally, in an `else:` clause, …); the
+    front-end deactivations still run -/
+def hcfgExcSkipsPlatform : HCfg := { hcfg with leaveExcActs := hcfg.leaveExcActs.filter (· != Act.plOff) }
+
+/-- the process of `witnessThread` (named `a) b`) … -/
+def witnessProc : ProcRec := ⟨witnessThread, witnessStatus nameUid⟩
+/-- … after it renamed itself to `b` -/
+def witnessProc2 : ProcRec := ⟨{ witnessThread with comm := [98] }, witnessStatus nameUid⟩
+
+/-- the full history statement is FALSE of that code: `with p.oneshot(): p.name(); raise …`, then the process
+    renames itself, then `p.name()` outside every block still reports the old name -/
+theorem C06_history_exc_exit_counterexample : ¬ HistoryExact_Full hcfgExcSkipsPlatform := by
+  intro h
+  have hwf1 : witnessProc.WF :=
+    ⟨witnessThread_wf, witnessStatus_wf _, by decide, by intro kv hk; simp [witnessProc, witnessStatus] at hk⟩
+  have hwf2 : witnessProc2.WF :=
+    ⟨by unfold StatRec.WF; decide, witnessStatus_wf _, by decide,
+     by intro kv hk; simp [witnessProc2, witnessStatus] at hk⟩
+  have hc := h 100 (by decide) [] witnessProc
+    [.enter, .get .name, .leave true, .publish witnessProc2, .get .name] hwf1
+    (by intro r hr; simp [published] at hr; subst hr; exact hwf2)
+  have hrun := stale_after_exc_exit hcfgExcSkipsPlatform ⟨cfg, 100, []⟩ (renderWorld witnessProc)
+    (renderWorld witnessProc2) (rawView witnessThread) (by decide) (by decide) (by decide) (by decide)
+    (by decide) (C06_stat_roundtrip witnessThread witnessThread_wf)
+  simp only [List.map_cons, List.map_nil, Ev.map] at hc
+  rw [hrun] at hc
+  simp only [Conforms, specStep, candidates, Option.map, List.mem_singleton, exists_eq_left, ExactReport] at hc
+  have h2 := hc.2.1
+  simp [viewV, outOf, Spec.name, witnessProc2, rawView, witnessThread] at h2
+
 /-! ## the hypotheses are satisfiable (non-vacuity) -/
 
 example : witnessThread.WF := witnessThread_wf
@@ -872,4 +1039,22 @@ example : uids cfg (renderStatus (witnessStatus nameUid)) = .ok (1234, 1234, 123
 example : threads cfg 100 [(7, renderStat witnessThread)] = .ok [⟨7, (300 : Nat) / (100 : Nat), (400 : Nat) / (100 : Nat)⟩] :=
   C06_threads_exact 100 (by decide) [witnessThread] (by intro r hr; simp at hr; subst hr; exact witnessThread_wf)
 
+/-- the history theorem applies to the witness of its own refutation: for the code as it is, `name()` after the
+    block was left by an exception and the process renamed itself is allowed only to report the NEW name -/
+example : Conforms (ExactReport 100 []) ⟨witnessProc, none⟩
+    [.enter, .get .name, .leave true, .publish witnessProc2, .get .name]
+    (run hcfg ⟨cfg, 100, []⟩ (HState.fresh (renderWorld witnessProc))
+      ([Ev.enter, .get .name, .leave true, .publish witnessProc2, .get .name].map (Ev.map renderWorld))) :=
+  C06_history_exact 100 (by decide) [] witnessProc _
+    ⟨witnessThread_wf, witnessStatus_wf _, by decide, by intro kv hk; simp [witnessProc, witnessStatus] at hk⟩
+    (by
+      intro r hr
+      simp [published] at hr
+      subst hr
+      exact ⟨by unfold StatRec.WF; decide, witnessStatus_wf _, by decide,
+        by intro kv hk; simp [witnessProc2, witnessStatus] at hk⟩)
+/-- `Conforms` is not vacuous: outside a block a stale report is refused -/
+example : ¬ Conforms (fun (_ : Getter) (w : Nat) (o : Nat) => o = w) ⟨1, none⟩
+    [.enter, .get .name, .leave true, .publish 2, .get .name] [1, 1] := by
+  simp [Conforms, specStep, candidates]
 end Psutil.C06
